@@ -39,6 +39,9 @@ vars == <<l, regs, dgs, bad, cov, vres, ctxs, pool>>
 
 Ev == T[l]
 
+(* a context as the trace specification tracks it: DecContext's record plus `who`, the operation that latched it *)
+CtxRec(p, m) == LET c == CtxInit(p, m) IN [prec |-> c.prec, mode |-> c.mode, err |-> c.err, who |-> ""]
+
 (***************************************************************************)
 (* Observation -> abstract value, and the canonical-form check (C08)       *)
 (***************************************************************************)
@@ -202,7 +205,7 @@ TReset ==
   /\ IsEv("Reset")
   /\ l' = l + 1
   /\ vres' = <<>>
-  /\ ctxs' = [c \in {Ev.ctxs[i] : i \in 1..Len(Ev.ctxs)} |-> CtxInit(0, 0)]
+  /\ ctxs' = [c \in {Ev.ctxs[i] : i \in 1..Len(Ev.ctxs)} |-> CtxRec(0, 0)]
   /\ pool' = <<>>
   /\ regs' = [r \in Named |-> Got(r)]
   /\ dgs' = Ev.dg
@@ -599,6 +602,19 @@ TTextParse ==
 (* package context (C19)                                                   *)
 (***************************************************************************)
 Ctx == ctxs[Ev.c]
+(* "Err() returns the recorded error": the FIRST one.  The error value itself is not observable when it is recorded, *)
+(* but its text identifies the kind of operation that produced it: a text that belongs to another kind of operation  *)
+(* than the one that latched the context is not the first error.  (Texts the table does not know are not judged.)    *)
+NaNTexts(op) == CASE op = "Ctx.Add" -> {"addition of infinities with opposite signs"}
+                  [] op = "Ctx.Sub" -> {"subtraction of infinities with equal signs"}
+                  [] op = "Ctx.Mul" -> {"multiplication of zero with infinity"}
+                  [] op = "Ctx.Quo" -> {"division of zero by zero or infinity by infinity"}
+                  [] op = "Ctx.FMA" -> {"multiplication of zero with infinity", "addition of infinities with opposite signs"}
+                  [] op = "Ctx.Sqrt" -> {"square root of negative operand"}
+                  [] op = "Ctx.NewFloat64" -> {"Decimal.SetFloat64(NaN)"}
+                  [] OTHER -> {}
+AllNaNTexts == UNION {NaNTexts(op) : op \in {"Ctx.Add", "Ctx.Sub", "Ctx.Mul", "Ctx.Quo", "Ctx.FMA", "Ctx.Sqrt", "Ctx.NewFloat64"}}
+FirstErrOK(who, msg) == msg \in AllNaNTexts /\ NaNTexts(who) # {} => msg \in NaNTexts(who)
 CtxObsOK(c) == Ev.ret.cprec = c.prec /\ Ev.ret.cmode = c.mode      \* the context's observable attributes
 
 (* the register the operation writes, rewritten: operands that ARE the receiver see the applied receiver *)
@@ -630,7 +646,7 @@ CtxStep(w, aliased, tag) ==
                  got == IF Ev.out = "ok" /\ w.out = "nan" THEN [w1 EXCEPT !.out = "ok", !.free = {"value", "acc"}] ELSE w1
              IN /\ bad' = bad \cup Tag({<<t[1], IF t[2] \in {"C09", "C10"} THEN "C19" ELSE t[2], t[3]>> : t \in MisZ(got)} \cup (IF Ev.out = "ok" /\ Ev.ret.same /\ CtxObsOK(c) THEN {} ELSE {<<l, "C19", "ret">>})
                                        \cup Common({Ev.z}), "")
-                /\ ctxs' = [ctxs EXCEPT ![Ev.c].err = (w.out = "nan")] /\ pool' = pool
+                /\ ctxs' = [ctxs EXCEPT ![Ev.c].err = (w.out = "nan"), ![Ev.c].who = IF w.out = "nan" THEN Ev.op ELSE ""] /\ pool' = pool
                 /\ cov' = Bump({Ev.op, Ev.op \o ":" \o tag, Ev.op \o (IF w.out = "nan" THEN ":nan" ELSE ":ok"), Ev.op \o (IF aliased THEN ":aliased" ELSE ":distinct")})
 
 IsCtx(op) == IsEv("Ctx." \o op)
@@ -663,11 +679,12 @@ CtxSelf(c1, ok, tag) ==
   /\ ctxs' = [k \in DOMAIN ctxs \cup {Ev.c} |-> IF k = Ev.c THEN c1 ELSE ctxs[k]] /\ pool' = pool
   /\ bad' = bad \cup Tag((IF Ev.out = "ok" /\ ok /\ Ev.ret.cprec = c1.prec /\ Ev.ret.cmode = c1.mode THEN {} ELSE {<<l, "C19", "ctx">>}) \cup Common({}), "")
   /\ cov' = Bump({Ev.op} \cup tag)
-TCtxNew == IsCtx("New") /\ CtxSelf(CtxInit(Ev.p, Ev.m), TRUE, {})
+TCtxNew == IsCtx("New") /\ CtxSelf(CtxRec(Ev.p, Ev.m), TRUE, {})
 TCtxSetPrec == IsCtx("SetPrec") /\ CtxSelf([Ctx EXCEPT !.prec = CtxInit(Ev.p, 0).prec], TRUE, {})
 TCtxSetMode == IsCtx("SetMode") /\ CtxSelf([Ctx EXCEPT !.mode = Ev.m], TRUE, {})
 (* Err returns the recorded error exactly once and re-arms the context *)
-TCtxErr == IsCtx("Err") /\ CtxSelf([Ctx EXCEPT !.err = FALSE], Ev.ret.err = Ctx.err /\ (Ctx.err => Ev.ret.isnan), {"Ctx.Err:" \o ToString(Ctx.err)})
+TCtxErr == IsCtx("Err") /\ CtxSelf([Ctx EXCEPT !.err = FALSE, !.who = ""], Ev.ret.err = Ctx.err /\ (Ctx.err => Ev.ret.isnan /\ FirstErrOK(Ctx.who, Ev.ret.msg)),
+                                   {"Ctx.Err:" \o ToString(Ctx.err)})
 
 (* factories: c.New().SetX(...) - not affected by the latch *)
 CtxFactory(w) ==
@@ -690,7 +707,7 @@ TCtxNewFloat64 ==
   /\ LET b == DecodeF64(FromStr(Ev.bits))
      IN IF b.k = "nan"
         THEN /\ l' = l + 1 /\ vres' = vres /\ regs' = Adopt /\ dgs' = Ev.dg /\ pool' = pool
-             /\ ctxs' = [ctxs EXCEPT ![Ev.c].err = TRUE]
+             /\ ctxs' = IF Ctx.err THEN ctxs ELSE [ctxs EXCEPT ![Ev.c].err = TRUE, ![Ev.c].who = Ev.op]          \* the first error wins
              /\ bad' = bad \cup Tag((IF Ev.out = "ok" THEN MisZ(Outcome("ok", CtxNew(Ctx), {"value", "acc"}, {"C19"})) ELSE {<<l, "C19", "nan-not-caught">>})
                                     \cup Common({Ev.z}), "")
              /\ cov' = Bump({"Ctx.NewFloat64:nan"})
